@@ -110,6 +110,35 @@ CHECKS = {
         technique="Coq proof by invariants over an LTS (all schedules) + trace-inclusion correspondence via deterministic simulation",
         design_ref="6 (C20)",
     ),
+    "C09": dict(
+        text="Sequential half: Coq theorems over the subunit machine for every history (one notification per decodable value of a modelled function of this subunit, in arrival order, "
+        "only while initialised, cache updated first). Concurrent half: Coq LTS of one delivery over a snapshot with a membership test per callback under ARBITRARY interleaved "
+        "register/unregister/clear actions; pointwise invariants give: complete delivery => every callback registered at the snapshot and not unregistered since was invoked exactly once, "
+        "nothing else, nobody twice; mutations are always enabled; the loop always progresses. Real subunits/connection run under the deterministic harness with re-entrant and "
+        "cross-thread mutation programs; each callback set's event trace is replayed in the model; monitor judges every delivery.",
+        note=BASE_NOTE + "Modelled, not verified: pyserial ReaderThread/LineReader, queue.Queue, threading.Event/Lock/Thread.join, time.sleep and the port are replaced by the harness's simulated primitives (their contracts are the model's assumptions); real-clock behaviour and OS scheduling latency / thread teardown are outside every theorem.",
+        technique="Coq proof by induction over histories + pointwise invariants over an LTS (all interleavings) + trace-inclusion correspondence via deterministic simulation",
+        design_ref="6 (C09)",
+    ),
+    "C15": dict(
+        text="Coq LTS of the connection life cycle (reader exit path = ReaderThread.run -> connection_lost, close(), abstract sender) with invariants for EVERY action list: disconnect "
+        "callback invoked at most once and only at the end of connection_lost (exactly once when still set: the reader's steps are forced), connected False from the first step of "
+        "connection_lost, no delivery afterwards, the lost path never blocks without a finite deadline; plus, on the connection LTS, the multiset theorem "
+        "#written(x) + #drained(x) <= #submitted(x) (discarded, not written). Sessions with a transport fault at random points run under the deterministic harness, are replayed in both "
+        "machines and judged by a monitor (callback count, connected flag, writes after the drain, thread termination, later API calls).",
+        note=BASE_NOTE + "Modelled, not verified: pyserial ReaderThread/LineReader, queue.Queue, threading.Event/Lock/Thread.join, time.sleep and the port are replaced by the harness's simulated primitives (their contracts are the model's assumptions); real-clock behaviour and OS scheduling latency / thread teardown are outside every theorem." + " PARTIAL: thread termination is proved as bounded blocking of the lost path and observed on every simulated run, not proved as OS-level liveness.",
+        technique="Coq proof by invariants over LTSs (all fault positions and interleavings) + trace-inclusion correspondence via deterministic simulation with fault injection",
+        design_ref="6 (C15)",
+    ),
+    "C16": dict(
+        text="Coq LTS of the life cycle with any number of concurrent/repeated close() calls on other threads and close() on the reader thread itself; invariants for EVERY action list: "
+        "once a close() has started (_closed set) the user's disconnect callback is never invoked again; a cleared callback stays cleared and is never invoked after a later read; once a "
+        "close() has returned the port is closed, the reader is told to stop, and no sender write can succeed; close() can start in any state and its join has a finite deadline. "
+        "Sessions with close() from caller threads, the main thread, inside message/disconnect callbacks, during connect(), repeated and concurrent, are simulated, replayed and monitored.",
+        note=BASE_NOTE + "Modelled, not verified: pyserial ReaderThread/LineReader, queue.Queue, threading.Event/Lock/Thread.join, time.sleep and the port are replaced by the harness's simulated primitives (their contracts are the model's assumptions); real-clock behaviour and OS scheduling latency / thread teardown are outside every theorem." + " PARTIAL: 'returns without raising' is absence of a raising transition in the transcribed close(), tied to the code by replay (a raise is an event the model refuses).",
+        technique="Coq proof by invariants over an LTS (all interleavings of closers, reader and sender) + trace-inclusion correspondence via deterministic simulation",
+        design_ref="6 (C16)",
+    ),
 }
 
 ALL = ["C%02d" % i for i in range(1, 21)]
